@@ -84,7 +84,9 @@ def _select_bad(pre, post):
     n = t.app('sl_len', t.INT, pre.self.fields['subcons'].ident)
     sel = t.eq(post.exc.cls, I(post.eng.src.exc_code['SelectError']))
     return [('no-alternative-matching-is-SelectError-with-the-stream-back-at-the-start',
-             t.implies(sel, t.and_(ps('ps_ok', sfold(pre, n)), t.not_(ps('ps_stop', sfold(pre, n))), t.eq(o2.pos, o.pos))), T)] + list(generic_raise(pre, post))
+             t.implies(sel, t.and_(ps('ps_ok', sfold(pre, n)), t.not_(ps('ps_stop', sfold(pre, n))), t.eq(o2.pos, o.pos))), T),
+            ('a-failed-alternative-leaves-no-trace-only-ExplicitError-or-SelectError-escapes',
+             t.or_(sel, post.eng.exc_sub_term(post.exc.cls, 'ExplicitError')), T)] + list(generic_raise(pre, post))
 
 
 # ================================================================================================ GreedyRange
@@ -134,8 +136,9 @@ def register_alternatives(src):
     fcontract('Select', '_parse', [
         Case('ok', 'return', lambda pre: t.TRUE, ensures=_select_ok, rkind=rk_dyn, modifies=['stream']),
         Case('fails', 'raise', lambda pre: t.TRUE, ensures=_select_bad, modifies=['stream']),
-    ], loops={'for sc in self.subcons': LoopSpec(_select_inv, tags=T, modifies=())}, tags=T)
+    ], loops={'for sc in self.subcons': LoopSpec(_select_inv, tags=T, modifies=())}, tags=T, foreign_errors=True)
     fcontract('GreedyRange', '_parse', [
         Case('ok', 'return', lambda pre: t.TRUE, ensures=lambda pre, post: _gr_ok(pre, post) + _gr_pos(pre, post), rkind=rk_dyn, modifies=['stream']),
-        Case('fails', 'raise', lambda pre: t.TRUE, ensures=generic_raise, modifies=['stream']),
-    ], loops={'for i in itertools.count()': LoopSpec(_gr_inv, tags=T, modifies=())}, tags=T)
+        Case('fails', 'raise', lambda pre: t.TRUE, ensures=lambda pre, post: [
+            ('a-failed-element-ends-the-range-only-ExplicitError-escapes', post.eng.exc_sub_term(post.exc.cls, 'ExplicitError'), T)] + list(generic_raise(pre, post)), modifies=['stream']),
+    ], loops={'for i in itertools.count()': LoopSpec(_gr_inv, tags=T, modifies=())}, tags=T, foreign_errors=True)
